@@ -720,4 +720,11 @@ if (ONESHOT) agg.what = "one-shot runs end to end (the working tree's commandeer
 fs.writeFileSync(path.join(OUT, ONESHOT ? "e2edet.json" : "e2eleg.json"), JSON.stringify(agg, null, 1));
 for (const l of lines) console.log(l);
 console.log(`${ONESHOT ? "E2EDET" : "E2ELEG"} histories=${agg.histories} checkpoints=${agg.checkpoints} compared=${agg.compared_with_a_fresh_one_shot_process} change_events=${agg.change_events} builds=${agg.builds_in_watch_sessions} skipped_panic=${agg.skipped_because_the_compiler_panicked} skipped_other=${agg.skipped_other} stalled=${agg.stalled.length} wall=${agg.wall_s.toFixed(1)}s`);
+// vacuity guard: a leg whose histories cannot be driven, or that never gets to compare anything, has decided
+// nothing (e.g. every build dies before it writes: session and fresh process fail alike, and every oracle here is
+// differential) - that is a harness error, not a pass
+if (!lines.length && !notRunnable && agg.histories >= 40 && (agg.compared_with_a_fresh_one_shot_process === 0 || agg.skipped_other * 4 > agg.histories)) {
+  console.log(`HARNESS-ERROR: the end-to-end leg has become vacuous: ${agg.histories} histories, ${agg.compared_with_a_fresh_one_shot_process} comparisons, ${agg.skipped_other} histories could not be driven${agg.skipped_example ? " (" + String(agg.skipped_example).slice(0, 200).replace(/\n/g, " ") + ")" : ""}`);
+  process.exit(2);
+}
 process.exit(lines.length ? 1 : 0);
